@@ -4,7 +4,7 @@ package main
 
 func init() {
 	props["C01"] = &propSpec{
-		Rules:      []string{"C01-a", "C01-b", "C01-e", "C01-f"},
+		Rules:      []string{"C01-a", "C01-b", "C01-e", "C01-f", "C19-f"},
 		Decides:    "Decides, on every path of every production function, structural necessary conditions of 'no row is dropped, truncated or altered': no error from the sorter / ingest / object store / on-disk index is dropped. It does not decide equality of stored and input rows (value-dependent); level 'other' because it is exhaustive over code paths but establishes a necessary condition only. Also decided: the workers' blocks are sorted by offset on every path before the table's block list is built, and the ingest CSV reader is configured only with loss-free options.",
 		NotDecided: "equality of the stored row set with the input row set, key order, de-duplication correctness, export fidelity (value-dependent).",
 	}
@@ -24,7 +24,7 @@ func init() {
 		NotDecided: "repeatability of the operation after a crash; effects of a crash inside a multi-branch pull; atomicity of the underlying stores (trusted).",
 	}
 	props["C10"] = &propSpec{
-		Rules:      []string{"C10-a", "C10-b", "C10-c", "C10-d", "C10-e", "C10-f"},
+		Rules:      []string{"C10-a", "C10-b", "C10-c", "C10-d", "C10-e", "C10-f", "C10-g", "C10-h"},
 		Decides:    "Decides that every ref-update site in fetch and push is unreachable once the fast-forward / force / new-ref / delete permit edges are removed, that existing tags additionally need a force permit, that unlogged ref writes are confined to tags and transaction refs, that the reflog's old value is read inside the SQL transaction that updates the ref, and that merge writes refs only after the merge base was computed. Does not decide IsAncestorOf's correctness (C11), merge's fast-forward condition, pull's new-branch detection or the remote side of push. Also decided: force permits are tests of the flag itself (not of a loop-carried accumulation); the fast-forward ref write takes the single input that differs from the merge base.",
 		NotDecided: "that IsAncestorOf answers correctly (C11); merge's fast-forward condition (control-dependent on SeekCommonAncestor); pull's new-branch detection; the remote side of push.",
 	}
@@ -34,7 +34,7 @@ func init() {
 		NotDecided: "completeness of the transferred history, object identity on both sides, idempotence of a repeated fetch/push.",
 	}
 	props["C12"] = &propSpec{
-		Rules:      []string{"C12-a", "C12-b", "C12-c", "C12-d", "C12-e", "C12-f", "C13-i"},
+		Rules:      []string{"C12-a", "C12-b", "C12-c", "C12-d", "C12-e", "C12-f", "C13-i", "C17-e"},
 		Decides:    "Decides structural mechanisms of prune safety on every path: roots come from an unfiltered ref listing; no ref/object-store error is dropped while marking; every delete lies under a not-marked edge of a []bool mark (commits: come from a list filled only under such an edge); every sort.Search hit is bounds-checked before use and equality-checked before a mark is written; commits are deleted in the last step. Does not decide that the marked set equals the reachable set (graph-valued). Also decided: configuration fields with a defaulting getter (transaction TTL) are read only through it; prune deletes the table object before its index and profile.",
 		NotDecided: "that the marked set equals the reachable set for every repository (graph-valued).",
 	}
@@ -59,12 +59,12 @@ func init() {
 		NotDecided: "equality of the decoded object sequences under every partition of the stream (behavioural); readers handed to third-party decoders (gzip, json).",
 	}
 	props["C19"] = &propSpec{
-		Rules:      []string{"C19-a", "C19-b", "C19-d", "C19-e", "C01-a", "C01-b"},
+		Rules:      []string{"C19-a", "C19-b", "C19-d", "C19-e", "C19-f", "C01-a", "C01-b"},
 		Decides:    "Decides structural necessary conditions of 'every distinct key once, in key order': every loop that compares two rows position by position is two-sided (a '<' decision is paired with a '>'/'!=' test on the same operands before the next position); pre-removal key positions are never applied to a row after column removal; every spill file gets a close+remove cleanup that Close runs; spill errors are not dropped; the row codec does not wrap. Does not decide sortedness/de-duplication of the output for all multisets and memory limits. Also decided: fields set by AddRow/Close are re-armed by Reset.",
 		NotDecided: "sortedness and de-duplication of the output for all row multisets and memory limits (value-dependent).",
 	}
 	props["C17"] = &propSpec{
-		Rules:      []string{"C17-a", "C17-b", "C17-c", "C17-d", "C07-b"},
+		Rules:      []string{"C17-a", "C17-b", "C17-c", "C17-d", "C17-e", "C07-b"},
 		Decides:    "Decides, over the functions reachable from the decoder entry points and ObjectReceiver.Receive, that no 32/64-bit count decoded from the stream sizes a make() without a sane bound on every path; that binary.BigEndian reads from caller-supplied slices in error-returning functions are behind a len() guard that relates the length to the read's offset and rejects with an error; that constant indices into decoded collections are behind a length test; that pointer results which can be nil together with an error are not dereferenced before the error test. Does not decide implicit index panics with non-constant indices, loop termination, or that nothing from a rejected packfile stays referenced. Also decided: Grow calls count as allocation sinks; a received commit is stored only after its parents were found.",
 		NotDecided: "implicit index panics with non-constant indices, loop termination, 'nothing from a rejected packfile is left referenced'.",
 	}
@@ -79,7 +79,7 @@ func init() {
 		NotDecided: "closedness, parent-first order, minimality, depth selection, polynomial termination — all statements about DAG values.",
 	}
 	props["C11"] = &propSpec{
-		Rules:      []string{"C11-a", "C11-b", "C11-c", "C11-d", "C11-e"},
+		Rules:      []string{"C11-a", "C11-b", "C11-c", "C11-d", "C11-e", "C17-e"},
 		Decides:    "Decides the 'whatever the commit timestamps say' clause for the ancestor test: in pkg/ref a value loaded from Commit.Time reaches a branch condition or return value only inside CommitsQueue.Less and the sort.Search predicate of Insert (frontier position); IsAncestorOf answers false only on the io.EOF edge of the pop and Pop yields io.EOF only on Len()==0; InsertParents offers every parent to the frontier. Does not decide SeekCommonAncestor's elimination logic or visit-exactly-once (graph-valued). Also decided: seen-set test and mark in CommitsQueue.Insert form one critical section; SeekCommonAncestor's 'not found' test uses a count accumulated within one round.",
 		NotDecided: "correctness of SeekCommonAncestor's lock-step elimination; visit-exactly-once (graph-valued).",
 	}
